@@ -102,6 +102,7 @@ def run(r):
         "C17_framing_roundtrip: every written line is newline-free, not blank, does not end in white space, the first line of a trimmed section does not start with white space (sections_wf) and every written line contains a character other than A-Z and blank (written_shape); both are checked on the real to_uasm output of every generated assembly by the tie",
         "C17_value_json_roundtrip: only invariants of the term encoding - length(data) = product(shape) (wf_shape, C05), bytes <= 255, binary64 patterns < 2^64 (repr_ok); the theorem is about values without label / map keys (those are modelled at the top level and tied, not proved; C17_value_json_refuted_map is an open defect there)",
         "run behaviour of the re-read assembly is compared on finitely many run-time arguments per program (search), not proved for all arguments",
+        "C17_reread_marks_truthful is about the scan over the comparisons of adjacent rows; that the rows are compared by ArrayCmpSlice as C15 models it is checked by recomputing the comparisons with Value::cmp in the harness",
     ]
     if not r.harness(["c17"]):
         return
@@ -206,7 +207,7 @@ def run(r):
         seen.add(key)
         r.violation(key, "%s: program %r" % (v["what"], v["src"][:200]),
                     {"program": v["src"], "name": v["name"], "detail": v["detail"], "cmd": "VERIF_SEED=%d c17 search %d; c17 rt PROGRAM" % (r.seed, m)},
-                    theorem="C17_framing_roundtrip" if key.startswith("uasm-marker") or key.startswith("uasm-read") else "C17_value_json_roundtrip")
+                    theorem="C17_framing_roundtrip" if key.startswith("uasm-marker") or key.startswith("uasm-read-") else ("C17_reread_marks_truthful" if key.startswith("uasm-reread") else "C17_value_json_roundtrip"))
     for v in viols[:2]:
         r.sample({"search": v["violation"], "program": v["src"][:120], "detail": v["detail"][:200]})
     r.coverage["evaluations"] = r.coverage.get("evaluations", 0) + len(cases) + s["runs"]
@@ -268,6 +269,28 @@ def tie_values(r, quick):
             continue
         for i in coq_ints(o):
             mism.append(items[si * shard + i][0])
+    # marks of the values read back: well formed, and exactly the marks the model's scan gives
+    mcases = [c for c, _ in items if c.get("marks")]
+    bad_marks = [c for c in mcases if c["marks"]["check"] != "ok" or c["marks"]["deep"]]
+    mjobs = []
+    ranked = [c for c in mcases if c["marks"]["rank"] > 0]
+    for si, ch in enumerate(chunks(ranked, 400)):
+        body = ";\n".join("([%s]%%N, (%s, %s))" % (";".join(str(x) for x in c["marks"]["cs"]), str(c["marks"]["up"]).lower(), str(c["marks"]["down"]).lower()) for c in ch)
+        text = ("From Coq Require Import List NArith. Import ListNotations.\nFrom UV Require Import Base.Value Model.Uasm Model.UasmValue.\n"
+                "Definition cases : list (list N * (bool * bool)) := [\n%s\n].\n"
+                "Eval vm_compute in (failing_from marks_case_ok 0%%N cases).\n" % body)
+        mjobs.append(("c17_marks_%d" % si, text))
+    for si, (rc2, o) in enumerate(coq_eval_many(mjobs, timeout=600)):
+        if rc2 != 0:
+            r.broken_obligation("tie-eval-marks", "Coq evaluation of marks shard %d failed" % si, o[-1500:])
+            continue
+        for i in coq_ints(o):
+            bad_marks.append(ranked[si * 400 + i])
+    r.coverage["tie_marks"] = {"values_read_back": len(mcases), "rank>=1 compared with recompute_marks": len(ranked), "wrong": len(bad_marks),
+                               "not_sorted_either_way": sum(1 for c in ranked if not c["marks"]["up"] and not c["marks"]["down"])}
+    for c in bad_marks[:3]:
+        r.violation("uasm-reread-value-marks-wrong", "a value read from its JSON text is malformed or carries untruthful sortedness marks: %s" % c["json"][:200],
+                    {"json": c["json"], "marks": c["marks"], "value": c.get("val", {}).get("show")}, theorem="C17_reread_marks_truthful")
     wrote = sum(1 for c, _ in items if "val" in c)
     r.coverage["tie_values"] = {"kind": "C", "cases": len(items), "written_by_serialiser": wrote, "hand_written_texts": len(items) - wrote,
                                 "reader_rejects": sum(1 for c, _ in items if "err" in c["back"]), "mismatches": len(mism), "skipped": skipped}
